@@ -7,11 +7,9 @@ impl Mutex<u32> {
     pub fn new(v: u32) -> (r: Mutex<u32>) { unimplemented!() }
     #[verifier::external_body]
     pub fn lock(&self, Tracked(w): Tracked<&mut World>) -> (g: &mut u32)
-        requires old(w).height == old(w).height_told,
         ensures
-            *g as int >= old(w).height,
-            *g as int >= old(w).height_told,
-            *final(w) == (World { height: *final(g) as int, height_read: *g as int, height_told: *g as int, ..*old(w) }),
+            *g as int >= old(w).height,          // other holders only raise the value (their guarantee = this unit's postcondition)
+            *final(w) == (World { height: *final(g) as int, height_read: *g as int, ..*old(w) }),
     { unimplemented!() }
 }
 pub struct GetinfoResponse { pub blockheight: u32 }
